@@ -4,6 +4,7 @@ facts "a greater lag gives a later date" and `LagInj`; the day-unit instance.
 -/
 import Bermuda.Lemmas.ExtendTotalInc
 import Bermuda.Lemmas.ExtendSpecTriUnit
+import Bermuda.Lemmas.ExtensionB7
 namespace Bermuda.Extend
 open Bermuda
 
@@ -133,5 +134,77 @@ theorem makeRightTriangle_ok_inc_day {t : List Cell} {lags : Option (List Rat)} 
       have : e.pe.addDays l.floor = ev := Except.ok.inj hev
       rw [← this]
       exact hcells e he l hl hgt)
+
+/-- `make_right_triangle` with requested lags on a complete incremental triangle RAISES `ValueError` when a requested lag
+exceeding every lag of a row lands on a date that is not after an observation `x` of that row -/
+theorem makeRightTriangle_error_inc_collision {t : List Cell} {ls : List Rat} {u : LagUnit} (hu : u ≠ .timedelta)
+    (hC : Properties.C04.Complete t) (hinc : Triangle.isIncremental t = true) (hcanon : ∀ c ∈ t, c.md.Canon)
+    (hnd : ls.Nodup)
+    (hinj : ∀ e ∈ t, ∀ l1 ∈ ls, ∀ l2 ∈ ls, l1 > e.devLag u → l2 > e.devLag u →
+      addDevLag e.pe l1 u = addDevLag e.pe l2 u → l1 = l2)
+    (hcells : ∀ e ∈ t, ∀ l ∈ ls, l > e.devLag u → ∀ ev, addDevLag e.pe l u = .ok ev →
+      (emptyCell e ev).datesOk = true)
+    {x : Cell} {l : Rat} {ev : Date} (hx : x ∈ t) (hl : l ∈ ls)
+    (hgt : ∀ o ∈ t, rowKey o = rowKey x → l > o.devLag u)
+    (hev : addDevLag x.pe l u = .ok ev) (hnot : ¬ x.ev < ev) :
+    makeRightTriangleU t (some ls) (some u) = .error .valueError := by
+  obtain ⟨cum, hcum, _⟩ := Properties.C04.toInc_toCum hC
+  obtain ⟨hA, hB⟩ := toCumulative_cells hinc hcum
+  have hkc : kindsConsistent cum = true := kindsConsistent_of_cumulative fun c hc => (hA c hc).1
+  have hni : Triangle.isIncremental cum = false :=
+    not_isIncremental_of_all (fun c hc => by rw [(hA c hc).1]; simp)
+  obtain ⟨right, hright⟩ := makeRightTriangle_ok (t := cum) (lags := some ls) (u := u) hu hkc hni (by
+    intro e he l' hl' hgt' ev' hev'
+    obtain ⟨_, y, hy, hyk, hye⟩ := hA e he
+    rw [emptyCell_congr hyk]
+    rcases hl' with ⟨ls', hls', hl'⟩ | ⟨hn, _⟩
+    · cases hls'
+      exact hcells y hy l' hl' (by rw [devLag_of_row hyk hye u]; exact hgt') ev' (by rw [pe_of_rowKey hyk]; exact hev')
+    · cases hn)
+  obtain ⟨new, hnew, _⟩ := makeRightTriangle_fin hni hright
+  have hiff := rightTriangleCells_mem hnew
+  have hsrc : ∀ n ∈ new, ∃ y ∈ t, rowKey y = rowKey n := by
+    intro n hn
+    obtain ⟨e, he, hne, _⟩ := ((hiff n).mp hn).row
+    obtain ⟨_, y, hy, hyk, _⟩ := hA e he
+    exact ⟨y, hy, by rw [hyk, hne]; rfl⟩
+  have hinjc : LagInj cum (some ls) u := by
+    intro p hp e he l1 hl1 l2 hl2 h1 h2 ev' e1 e2
+    obtain ⟨_, y, hy, hyk, hye⟩ := hA e (mem_of_mem_slices hp he)
+    have hd := devLag_of_row hyk hye u
+    refine hinj y hy l1 hl1 l2 hl2 (by rw [hd]; exact h1) (by rw [hd]; exact h2) ?_
+    rw [pe_of_rowKey hyk, e1, e2]
+  have hkt : kindsConsistent t = true := kindsConsistent_of_incremental hC.1.isInc
+  -- the colliding new cell
+  obtain ⟨c, hc, hck, _⟩ := hB x hx
+  obtain ⟨p, hp, _, hcp⟩ := slices_cover hc
+  obtain ⟨edge, hedge⟩ := rightTriangleCells_edges hnew p hp
+  obtain ⟨e, he, hem, hep⟩ := rightEdge_cover hedge hcp
+  have hep' : e.ps = c.ps ∧ e.pe = c.pe := by
+    simp only [cellPeriod, Prod.mk.injEq] at hep; exact hep
+  obtain ⟨k1, k2, k3⟩ := rowKey_eq_iff.mp hck
+  have hec : e ∈ cum := mem_of_mem_slices hp (rightEdge_latest hedge he).1
+  obtain ⟨_, y, hy, hyk, hye⟩ := hA e hec
+  have hex : rowKey e = rowKey x := by
+    rw [rowKey_eq_iff]; exact ⟨hem.trans k1, hep'.1.trans k2, hep'.2.trans k3⟩
+  have hgte : l > e.devLag u := by
+    rw [← devLag_of_row hyk hye u]; exact hgt y hy (hyk.trans hex)
+  have hn : emptyCell e ev ∈ new := by
+    refine (hiff _).mpr ⟨p, hp, edge, hedge, e, he, l, hl, hgte, ev, ?_, rfl⟩
+    rw [pe_of_rowKey hex]; exact hev
+  have hrow : rowKey x = rowKey (emptyCell e ev) := hex.symm
+  have herr := finishRight_error_inc (t := t) (new := new) hinc hkt
+    (fun n hn => RightTriCell.empty ((hiff n).mp hn)) (rightTriangleCells_datesOk hnew)
+    (fun n hn => by
+      obtain ⟨y, hy, hyk⟩ := hsrc n hn
+      rw [← (rowKey_eq_iff.mp hyk).2.1]; exact hC.1.psValid y hy)
+    (fun n hn => by
+      obtain ⟨y, hy, hyk⟩ := hsrc n hn
+      rw [← (rowKey_eq_iff.mp hyk).1]; exact hcanon y hy)
+    (rightTri_new_keys_nodup_u hinjc (fun l' hl' => by cases hl'; exact hnd) hnew)
+    hn hx hrow hnot
+  unfold makeRightTriangleU
+  simp only [hinc, if_true, hcum, hnew, bind, Except.bind]
+  exact herr
 
 end Bermuda.Extend
